@@ -276,6 +276,7 @@ def check_C06(ctx):
             ['EngineSerialMC.cfg'], ['C06'])
     rule = ctx_rule(ctx)
     scen = vt.tlc_generate(ctx, 'GenWire', 'C06', 0)
+    scen += vt.tlc_generate(ctx, 'GenRun', 'C06', 0)       # request level: the configured delay against every timeout
     wire_family(ctx, 'C06', scen, rule, nontrivial=lambda s, es: any(e['event'] == 'Send' for e in es))
     ctx.extra['rule'] = rule + '; plus ' + (WIRE_RULE % 'C06All (255-TTL runs for every variant and identifier base; destination answers at every position relative to pacing)')
     vt.write_evidence(ctx, 'model_checking', ctx_rule(ctx), exhaustive=True)
